@@ -2,6 +2,7 @@
 import ast
 
 from ..core import astutil as A
+from ..core import match as M
 from ..core.model import dotted
 
 META = {
@@ -40,14 +41,12 @@ def run(ctx):
     ctx.check("R2", pa, "self.text.splitlines(keepends=True)" in it, f"lines-keep-ends:{it[:50]}", "lines come from splitlines(keepends=True): their concatenation is the text",
               f"_parse iterates `{it}`: line endings are lost, so CRLF / a missing final newline cannot be reproduced", node=loop[0])
     line = A.unparse(loop[0].target.elts[1]) if isinstance(loop[0].target, ast.Tuple) else A.unparse(loop[0].target)
-    raws = [v for t_, v, _ in A.assignments(loop[0], "raw")]
-    eols = [v for t_, v, _ in A.assignments(loop[0], "eol")]
-    ctx.require(len(raws) == 1 and len(eols) == 1, "_parse: raw/eol slices not found")
-    ok = A.unparse(raws[0]) == f"{line}.rstrip('\\r\\n')" and A.unparse(eols[0]) == f"{line}[len(raw):]"
-    ctx.check("R2", pa, ok, f"raw-eol-partition:{A.unparse(eols[0])[:30]}", "raw is the line without its ending and eol the remaining suffix: raw + eol == line",
-              f"raw = `{A.unparse(raws[0])}`, eol = `{A.unparse(eols[0])}` are not complementary slices of the line", node=loop[0])
+    part = M.one(loop[0], f"$raw = {line}.rstrip('\\r\\n')\n$eol = {line}[len($raw):]")
+    ctx.check("R2", pa, part is not None, "raw-eol-partition", "raw is the line without its ending and eol the remaining suffix: raw + eol == line",
+              "the content and the line ending of a parsed line are no longer complementary slices of the line (`raw = line.rstrip('\\r\\n')`, `eol = line[len(raw):]`)", node=loop[0])
+    rawv, eolv = (part["raw"], part["eol"]) if part else ("raw", "eol")
     ents = [c for c in A.calls(loop[0]) if dotted(c.func) == "PackageListEntry"]
-    ctx.check("R2", pa, len(ents) == 2 and all(A.unparse(c.args[1]) == "raw" and ("eol" in [A.unparse(a) for a in c.args] or any(k.arg == "eol" and A.unparse(k.value) == "eol" for k in c.keywords)) for c in ents), "entries-carry-raw-and-eol", "every entry (blank or not) carries its raw text and its line ending")
+    ctx.check("R2", pa, len(ents) == 2 and all(A.unparse(c.args[1]) == rawv and (eolv in [A.unparse(a) for a in c.args] or any(k.arg == "eol" and A.unparse(k.value) == eolv for k in c.keywords)) for c in ents), "entries-carry-raw-and-eol", "every entry (blank or not) carries its raw text and its line ending")
     ctx.check("R2", pa, any(A.unparse(c.args[2]) == "None" for c in ents), "blank-lines-are-entries", "blank and comment-only lines are kept as entries without a package")
     ctx.floor("R2", 4)
 
@@ -59,32 +58,39 @@ def run(ctx):
     rew = [c for c in A.calls(loop[0]) if A.call_attr(c) == "with_keywords"]
     ctx.require(len(rew) == 1, "expand: with_keywords call not found")
     g = next((p for p in A.parents(rew[0]) if isinstance(p, ast.If)), None)
-    ok = g is not None and isinstance(g.test, ast.Compare) and isinstance(g.test.ops[0], ast.NotEq) and f"{ev}.keywords" in A.unparse(g.test)
+    ok = g is not None and isinstance(g.test, ast.Compare) and isinstance(g.test.ops[0], ast.NotEq) and f"{ev}.keywords" in A.unparse(g.test) and A.unparse(rew[0].args[0]) in A.names_in(g.test)
     ctx.check("R3", ex, ok, f"rewrite-only-if-keywords-changed:{A.unparse(g.test)[:40] if g is not None else ''}", "an entry is rewritten only when its expanded keywords differ from the written ones",
               "expand rewrites entries without testing whether their keywords changed: lines without sentinels are re-rendered (keyword spacing normalised) instead of staying byte-identical", node=rew[0])
     blank = [n for n in loop[0].body if isinstance(n, ast.If) and A.unparse(n.test) == f"{ev}.pkg is None"]
-    ok = len(blank) == 1 and [A.unparse(s) for s in blank[0].body] == [f"expanded.append({ev})", "continue"]
+    acc = M.one(ex.node, "return PackageList(''.join(($x.raw + $x.eol for $x in $acc)), bug_id=self.bug_id)")
+    accv = acc["acc"] if acc else "expanded"
+    ok = len(blank) == 1 and M.has(blank[0].body, f"{accv}.append({ev})\ncontinue") and not any(A.call_attr(c) == "with_keywords" for c in A.calls(blank[0]))
     ctx.check("R3", ex, ok, "blank-lines-pass-through", "blank/comment lines are appended as they are")
     t = A.unparse(ex.node)
-    ctx.check("R3", ex, "if not changed:\n        return self" in t and "changed = True" in A.unparse(g) if g is not None else False, "unchanged-list-is-self", "when nothing changed the same list object (same text) is returned")
-    ctx.check("R3", ex, "''.join((x.raw + x.eol for x in expanded))" in t, "rejoin-raw-eol-in-order", "the new text is raw + eol of every entry, in order")
-    apps = [c for c in A.calls(loop[0]) if A.unparse(c.func) == "expanded.append"]
+    chg = M.one(ex.node, "$c = False\n...\nif not $c:\n    return self")
+    ctx.check("R3", ex, chg is not None and g is not None and M.has(g.body, "$c = True", chg.env), "unchanged-list-is-self", "when nothing changed the same list object (same text) is returned")
+    ctx.check("R3", ex, acc is not None, "rejoin-raw-eol-in-order", "the new text is raw + eol of every entry, in order")
+    apps = [c for c in A.calls(loop[0]) if A.unparse(c.func) == f"{accv}.append"]
     ctx.check("R3", ex, len(apps) == 2 and all(A.unparse(c.args[0]) == ev for c in apps), "every-entry-kept", "every entry is appended exactly once (blank branch or main path)")
     wk = P.func(MOD, "PackageListEntry.with_keywords")
     tw = A.unparse(wk.node)
-    ctx.check("R3", wk, "if self.pkg is None:\n        return self" in tw, "no-spec-no-rewrite", "with_keywords leaves an entry without a package spec alone")
-    ctx.check("R3", wk, "self.raw[comment_at:]" in tw and "comment_at = len(self.raw)" in tw and "comment_at = match.end() - 1" in tw, "comment-slice-kept", "the comment (from its '#') is carried over as a slice of the original text")
-    ctx.check("R3", wk, "head = body[:tokens[1].start()]" in tw and "body[tokens[-1].end():]" in tw, "spec-and-tail-slices-kept", "the spec with the spacing after it, and whatever follows the last keyword, are slices of the original text")
-    ctx.check("R3", wk, "dataclasses.replace(self, keywords=keywords, raw=" in tw, "only-raw-and-keywords-change", "only raw and keywords are replaced (lineno, pkg, comment, eol stay)")
+    ctx.check("R3", wk, M.has(wk.node, "if self.pkg is None:\n    return self"), "no-spec-no-rewrite", "with_keywords leaves an entry without a package spec alone")
+    cm_ = M.one(wk.node, "$at = len(self.raw)\nif ($m := _COMMENT_RE.search(self.raw)):\n    $at = $m.end() - 1")
+    ctx.check("R3", wk, cm_ is not None and M.has(wk.node, "self.raw[$at:]", cm_.env), "comment-slice-kept", "the comment (from its '#') is carried over as a slice of the original text")
+    bd_ = M.one(wk.node, "$body = self.raw[:$at]", cm_.env if cm_ else None)
+    ctx.check("R3", wk, bd_ is not None and M.has(wk.node, "$head = $body[:$toks[1].start()]", bd_.env) and M.has(wk.node, "$body[$toks[-1].end():]", bd_.env), "spec-and-tail-slices-kept", "the spec with the spacing after it, and whatever follows the last keyword, are slices of the original text")
+    rp = [c for c in A.calls(wk.node) if dotted(c.func) == "dataclasses.replace"]
+    ctx.check("R3", wk, len(rp) == 1 and A.unparse(rp[0].args[0]) == "self" and {k.arg for k in rp[0].keywords} == {"keywords", "raw"}, "only-raw-and-keywords-change", "only raw and keywords are replaced (lineno, pkg, comment, eol stay)")
     ctx.floor("R3", 9)
 
     # ---- R4 build/parse agreement -------------------------------------------------------------------------------------
     bd = PL.methods["build"]
     tb = A.unparse(bd.node)
-    ctx.check("R4", bd, "' '.join((str(pkg), *keywords)).rstrip()" in tb and "'\\n'.join(" in tb, "build-format", "build writes `spec keyword keyword…`, one entry per line")
+    ctx.check("R4", bd, M.has(bd.node, "'\\n'.join((' '.join((str($p), *$k)).rstrip() for ($p, $k) in entries))"), "build-format", "build writes `spec keyword keyword…`, one entry per line")
     tpa = A.unparse(pa.node)
-    ctx.check("R4", pa, "pkg = parse_atom(tokens[0])" in tpa and "tuple(tokens[1:])" in tpa and "body.split()" in tpa, "parse-fields", "parse takes the first field as the spec and the rest as keywords")
-    ctx.check("R4", pa, "comment, body = (body[match.end() - 1:], body[:match.start()])" in tpa, "comment-split", "the comment starts at a '#' that begins a word")
+    tk = M.one(pa.node, "if not ($toks := $b.split()):\n    ...")
+    ctx.check("R4", pa, tk is not None and M.has(pa.node, "$p = parse_atom($toks[0])", tk.env) and M.has(pa.node, "tuple($toks[1:])", tk.env), "parse-fields", "parse takes the first field as the spec and the rest as keywords")
+    ctx.check("R4", pa, M.has(pa.node, "if ($m := _COMMENT_RE.search($b)):\n    ($c, $b) = ($b[$m.end() - 1:], $b[:$m.start()])"), "comment-split", "the comment starts at a '#' that begins a word")
     ctx.floor("R4", 3)
 
     # ---- R5 one notion of "blank" ---------------------------------------------------------------------------
